@@ -8,6 +8,7 @@ import time
 
 VERIF = os.path.dirname(os.path.dirname(os.path.abspath(__file__)))
 MAX_SAMPLES = 12
+MAX_SAMPLES_KEPT = 240  # collected across shards; the evidence shows the MAX_SAMPLES most diverse of them
 MAX_VIOLATIONS_KEPT = 40
 
 
@@ -35,7 +36,7 @@ class Result:
         self.sets.setdefault(setname, set()).add(item)
 
     def sample(self, s):
-        if len(self.samples) < MAX_SAMPLES:
+        if len(self.samples) < MAX_SAMPLES_KEPT:
             self.samples.append(s)
 
     def err(self, name, value):
@@ -98,6 +99,29 @@ class Result:
             self.sets.setdefault(k, set()).update(v)
 
 
+def _kind(s):
+    if not isinstance(s, dict):
+        return repr(type(s))
+    return tuple(str(s.get(k))[:40] for k in ("part", "backend", "mode", "variant", "config", "op", "probe_source", "system", "records", "sympy", "arrays") if k in s)
+
+
+def _diverse(samples, n):
+    """pick n samples preferring distinct kinds (part / backend / variant / operation ...)"""
+    out, seen, rest = [], set(), []
+    for s in samples:
+        k = _kind(s)
+        if k not in seen:
+            seen.add(k)
+            out.append(s)
+        else:
+            rest.append(s)
+    # spread over the distinct kinds evenly, then fill up
+    if len(out) > n:
+        step = len(out) / n
+        out = [out[int(i * step)] for i in range(n)]
+    return (out + rest)[:n]
+
+
 def load_known():
     path = os.path.join(VERIF, "known_findings.json")
     if not os.path.exists(path):
@@ -118,7 +142,7 @@ def finish(prop, tier, seed, level, res, rule, assumptions, wall, extra_cov=None
         "evaluations": int(res.evaluations),
         "distinct_nontrivial": len(res.cells),
         "rule": rule,
-        "samples": res.samples[:MAX_SAMPLES] or [{"note": "no sample recorded"}],
+        "samples": _diverse(res.samples, MAX_SAMPLES) or [{"note": "no sample recorded"}],
         "exhaustive": False,
         "counters": {k: v for k, v in sorted(res.counters.items())},
         "max_observed_error": res.maxerr,
